@@ -267,6 +267,12 @@ def r_scope(ck: Checker) -> None:
     ck.add("the implied literal is the one removed", unparse(rem.func.value) == lst and unparse(rem.args[0]) == b, func, rem, f"`{fmt(rem)}`; implied literal is `{b}`",  # type: ignore[attr-defined]
            "removing the implying literal instead loses information")
     ck.guard("removal only after a positive subsumption test", func, rem, unparse(test), "a literal is deleted only if it is implied")
+    ploop = enclosing_loop(func, rem)
+    ck.need(ploop is not None and "permutations(" in unparse(ploop.iter), "removal happens inside the enumeration of pairs")
+    itm = ck.interp(func, None, mark_stmts={id(enclosing_stmt(func, rem)): "removed"}, clear_marks_at={id(ploop): "removed"})
+    stale = [st for st in itm.loop_back.get(id(ploop), []) if "removed" in st.marks]
+    ck.add("after a removal the enumeration of pairs starts again", not stale, func, rem, f"the pair loop can continue with pairs taken from the list before the removal: {bool(stale)}",
+           "a pair enumerated before the removal may name a literal that is gone: with `sel(X), sel(X)` each copy removes the other, with a(X), b(X) implying each other both disappear")
     # callers pass fresh copies of exactly one scope
     caller = ck.func(f"{CLS}._apply_superseeding")
     itc = ck.interp(caller)
